@@ -16,9 +16,9 @@ import (
 
 	"golang.org/x/tools/go/ssa"
 
-	effects "manticheck/internal/srvfx"
 	"manticheck/internal/load"
 	"manticheck/internal/report"
+	effects "manticheck/internal/srvfx"
 )
 
 func init() { register(&Check{ID: "C18", NeedSSA: true, Run: runC18}) }
@@ -44,13 +44,13 @@ func runC18(c *Ctx) {
 		"R1 NO-SHARED-BUFFER: for every Read-style call inside a loop whose destination buffer is allocated outside that loop, no value that may alias the buffer " +
 		"(slices of it, or results/stored state of module callees whose retains(f,i) summary says they keep their argument without copy/append-to-fresh/string()) is passed to a go statement, sent on a channel, " +
 		"stored in non-local memory or handed to an unknown callee. " +
-		"R2 MASK-SAT + sibling dispatch: every `Header.Flags & M` classification against Op* constants has C&^M==0 for every compared constant, pairwise distinct cases, OR(all dispatched Op*) ⊆ M ⊆ 0xF800 (R+OPCODE of RFC 1002 §4.2.1.1), one M at all sites, " +
+		"R2 MASK-SAT + sibling dispatch: every `Header.Flags & M` classification against Op* constants — a switch, an ==/!= comparison, a switch on the shifted opcode number `(Flags&M)>>k` against `Op*>>k`, an index `T[(Flags&M)>>k]` / `T[Flags&M]` into a read-only table (array, slice or map composite literal of functions, never reassigned) whose non-nil rows are the cases, the masked value possibly obtained through a one-line accessor such as packet.Opcode() — has C&^M==0 for every compared constant, pairwise distinct cases, OR(all dispatched Op*) ⊆ M ⊆ 0xF800 (R+OPCODE of RFC 1002 §4.2.1.1), one M at all sites, " +
 		"the dispatch switches map each Op* constant to the same handler method name, every server type (struct with Start and Stop) reaches such a dispatch from its methods — servers may share one dispatch method; the unit is the server type, not the switch statement — and for every (server type, opcode) the dispatched handler reaches, in its body or same-package helpers, the name-table operation of its opcode (Query/Register/Release/Refresh) and no other; DefendName and HandleRedirect reach a judged classification (directly or through a shared predicate helper). " +
 		"R3 ID ECHO: in every NBNS responder the Marshal-ed response's Header.TransactionID is, on every def-use path, the loaded Header.TransactionID of the packet Unmarshal-ed from the function's input (or of the packet parameter every caller fills that way); no callee given the response stores that field; every server type reaches a judged responder; " +
 		"llmnr.CreateResponseFromMessage copies Header.ID from its argument; Client.readLoop looks the pending query up by the ID of the message decoded from the bytes just read and delivers that same message by a non-blocking send — the lookup and the send may sit in helpers of the loop (deliver(msg), pending(id), trySend(ch, msg), a decode helper fed with the filled buffer), judged at their call sites; Client.Query registers a buffered channel under the ID of the message it sends. " +
-		"R4 LIFECYCLE: every unbounded loop that blocks in Read*/Accept* (directly or in a helper it calls synchronously, two levels) tests a receiver-field quit channel on every iteration with a case that leaves the loop; some method closes that same field and the channel is created; each blocking call is either preceded in the iteration by a Set(Read)Deadline on the same connection or the closer also closes that same connection/listener field; " +
+		"R4 LIFECYCLE: every unbounded loop — `for { … }`, or `for [!]f() { … }` whose condition is one call of a module function (`for !s.stopping()`) — that blocks in Read*/Accept* (directly or in a helper it calls synchronously, two levels) tests a receiver-field quit channel on every iteration with a case that leaves the loop (an in-loop select, a quit helper `select { case <-s.quit: return true; default: return false }` taking the receiver or the channel, one or two wrappers of it, a channel accessor); a loop whose exit is decided by code the rule does not read (atomic flag, context, a helper that blocks and makes its own stop test) is NOT DECIDED; every lifecycle type (a struct one of whose methods closes a channel field: nbtns.Server, UDPServer, TCPServer, llmnr.Server, llmnr.Client) reaches at least one such loop (R4-serve-loop; the instance floors are keyed on these types, not on the number of loops); some method closes that same field and the channel is created; each blocking call is either preceded in the iteration by a Set(Read)Deadline on the same connection or the closer also closes that same connection/listener field; " +
 		"goroutines the stop function waits for are launched after wg.Add and defer wg.Done; types that carry a sync.Once close their channel only inside Once.Do. " +
-		"R5 PER-REQUEST STATE: functions started with `go` from inside a loop, or by a helper called from a loop (request handlers) and everything they call store only into objects allocated per request, or go through the name table's locking methods / sync.Map. " +
+		"R5 PER-REQUEST STATE: functions started with `go` from inside a loop, or by a helper called from a loop (request handlers) and everything they call store only into objects allocated per request (including the enclosing function's own variables assigned from inside a function literal or a range-over-func loop body), or go through the name table's locking methods / sync.Map; a store whose target object could not be traced to an allocation, parameter or global is NOT DECIDED. " +
 		"NOT decided: absence of all data races and deadlocks under every schedule (only the named sharing patterns are excluded), promptness/timing of shutdown, goroutines of user-supplied LLMNR handlers, correctness of the name-table semantics (C17), " +
 		"whether the NBNS handlers' answers are those RFC 1002 prescribes beyond the opcode→operation routing, and double Stop of the NBNS servers."
 	r.Assumptions = append(r.Assumptions,
@@ -92,7 +92,10 @@ func runC18(c *Ctx) {
 	k.r4()
 	k.r5()
 
-	r.Floor("R1-shared-buffer", 7)
+	// one receive loop with a read per lifecycle type at least (nbtns.Server, UDPServer,
+	// TCPServer's connection loop, llmnr.Server, llmnr.Client); how many Read statements a
+	// loop is written with (length prefix + body, helper or inline) is the author's choice
+	r.Floor("R1-shared-buffer", 5)
 	r.Extra["functions_analysed_alias"] = len(k.al.Visited)
 }
 
@@ -280,40 +283,19 @@ func (k *c18) r1(fns []*ssa.Function, wide bool) {
 
 // ------------------------------------------------------------------ R5
 
-// lockingMethod: a method that acquires a sync.(RW)Mutex field of its receiver
-// before any of its own stores (the name table's methods).
-func (k *c18) lockingMethod(g *ssa.Function) (bool, string) {
+// lockingMethod: a method that acquires a sync.(RW)Mutex field of its receiver before any
+// of its own stores (the name table's methods). The acquisition may be the Lock/RLock call
+// itself or a call of a module function on the same receiver that acquires it (n.lock(),
+// n.withRecord(name, func…)), two levels. Verdicts: ok; !ok with a positive reason (a store
+// of the method's own body that no acquisition precedes); or undecided != "" when nothing
+// wrong was seen but no acquisition was recognised either (the method's work is done in
+// helpers / function literals: C17's lockset rule judges those).
+func (k *c18) lockingMethod(g *ssa.Function) (ok bool, why string, undecided string) {
 	if g.Signature.Recv() == nil || len(g.Params) == 0 || g.Blocks == nil {
-		return false, ""
+		return false, "", "not a method with a body"
 	}
-	var lock ssa.Instruction
-	for _, b := range g.Blocks {
-		for _, in := range b.Instrs {
-			ci, ok := in.(*ssa.Call)
-			if !ok {
-				continue
-			}
-			obj := effects.CalleeObj(&ci.Call)
-			if obj == nil || obj.Pkg() == nil || obj.Pkg().Path() != "sync" {
-				continue
-			}
-			if obj.Name() != "Lock" && obj.Name() != "RLock" {
-				continue
-			}
-			args := effects.AllArgs(&ci.Call)
-			if len(args) == 0 {
-				continue
-			}
-			pth := k.pg.PathOf(args[0])
-			if pth.OK && pth.RecvType != nil && len(pth.Fields) == 1 && lock == nil {
-				lock = in
-			}
-		}
-	}
-	if lock == nil {
-		return false, ""
-	}
-	// every store / map update / delete of g comes after the lock
+	lock := k.acquiresRecvLock(g, 0)
+	nStores := 0
 	for _, b := range g.Blocks {
 		for _, in := range b.Instrs {
 			switch x := in.(type) {
@@ -321,17 +303,88 @@ func (k *c18) lockingMethod(g *ssa.Function) (bool, string) {
 				if _, isAlloc := x.Addr.(*ssa.Alloc); isAlloc {
 					continue
 				}
-				if !effects.Precedes(lock, in) {
-					return false, "store before the lock"
+				local := true
+				for _, rt := range effects.Roots(x.Addr) {
+					switch rt.(type) {
+					case *ssa.Alloc, *ssa.MakeSlice, *ssa.MakeMap:
+					default:
+						local = false
+					}
+				}
+				if local {
+					continue
+				}
+				nStores++
+				if lock != nil && !effects.Precedes(lock, in) {
+					return false, "store before the lock", ""
 				}
 			case *ssa.MapUpdate:
-				if !effects.Precedes(lock, in) {
-					return false, "map update before the lock"
+				nStores++
+				if lock != nil && !effects.Precedes(lock, in) {
+					return false, "map update before the lock", ""
 				}
 			}
 		}
 	}
-	return true, ""
+	if lock != nil {
+		return true, "", ""
+	}
+	if nStores > 0 {
+		return false, fmt.Sprintf("%d store(s) / map update(s) in the method body and no Lock/RLock on a receiver mutex field, directly or through a helper on the same receiver", nStores), ""
+	}
+	return false, "", "the method body neither stores nor acquires the lock itself; its work is done in helpers or function literals"
+}
+
+// acquiresRecvLock returns the first instruction of g that acquires a mutex field of g's
+// receiver: sync Lock/RLock on recv.<field>, or a call handing the receiver to a module
+// function that does so.
+func (k *c18) acquiresRecvLock(g *ssa.Function, depth int) ssa.Instruction {
+	if g == nil || g.Blocks == nil || depth > 2 || len(g.Params) == 0 {
+		return nil
+	}
+	var first ssa.Instruction
+	consider := func(in ssa.Instruction) {
+		if first == nil || effects.Precedes(in, first) {
+			first = in
+		}
+	}
+	for _, b := range g.Blocks {
+		for _, in := range b.Instrs {
+			ci, ok := in.(ssa.CallInstruction)
+			if !ok {
+				continue
+			}
+			if _, isGo := in.(*ssa.Go); isGo {
+				continue
+			}
+			cc := ci.Common()
+			args := effects.AllArgs(cc)
+			if obj := effects.CalleeObj(cc); obj != nil && obj.Pkg() != nil && obj.Pkg().Path() == "sync" && (obj.Name() == "Lock" || obj.Name() == "RLock") {
+				if len(args) > 0 {
+					if pth := k.pg.PathOf(args[0]); pth.OK && pth.RecvType != nil && len(pth.Fields) == 1 {
+						if _, isDefer := in.(*ssa.Defer); !isDefer {
+							consider(in)
+						}
+					}
+				}
+				continue
+			}
+			h := cc.StaticCallee()
+			if h == nil || h == g || h.Blocks == nil || !k.p.InModule(h) || len(args) == 0 || len(h.Params) == 0 {
+				continue
+			}
+			if pth := k.pg.PathOf(args[0]); !pth.OK || pth.RecvType == nil || len(pth.Fields) != 0 {
+				continue
+			}
+			if _, isDefer := in.(*ssa.Defer); isDefer {
+				continue
+			}
+			if k.acquiresRecvLock(h, depth+1) != nil {
+				consider(in)
+			}
+		}
+	}
+	return first
 }
 
 func (k *c18) r5() {
@@ -430,14 +483,17 @@ func (k *c18) r5() {
 		k.c.guard(rule, construct, k.pos(s.g), func() {
 			n++
 			effs := st.Effects(s.target)
-			var bad []string
+			var bad, unread []string
 			args := effects.AllArgs(&s.g.Call)
 			for _, e := range effs {
 				switch e.Kind {
 				case "global":
 					bad = append(bad, fmt.Sprintf("store to global %s (%s, %s)", e.Global.Name(), e.String(), k.pos(e.Instr)))
 				case "unknown":
-					bad = append(bad, fmt.Sprintf("store to an object of unknown origin (%s, %s)", e.String(), k.pos(e.Instr)))
+					// the written object was not traced to an allocation, a parameter or a global
+					// (it came out of a call through a function value, an interface, a container …):
+					// incomplete extraction, not an observed sharing
+					unread = append(unread, fmt.Sprintf("store to an object whose origin was not traced (%s, %s)", e.String(), k.pos(e.Instr)))
 				case "param":
 					var arg ssa.Value
 					if e.Param < len(args) {
@@ -480,6 +536,16 @@ func (k *c18) r5() {
 				k.r.Fail(rule, construct, k.pos(s.g), "request handler "+s.target.Name()+" does not keep its state per request: "+strings.Join(uniqStrings(bad), "; "))
 				return
 			}
+			if len(unread) > 0 {
+				sort.Strings(unread)
+				un := strings.Join(uniqStrings(unread), "; ")
+				if len(un) > 600 {
+					un = un[:600] + " …"
+				}
+				k.r.OK(rule, construct, k.pos(s.g), "NOT DECIDED — no store to shared memory was observed, but "+un)
+				k.r.Note("C18 R5-request-state: %s NOT DECIDED — %s", construct, un)
+				return
+			}
 			k.r.OK(rule, construct, k.pos(s.g), fmt.Sprintf("all stores reachable from %s (%d functions summarised) target objects allocated per request; shared state only through locking name-table methods / sync.Map",
 				s.target.Name(), len(st.Visited)))
 		})
@@ -492,14 +558,56 @@ func (k *c18) r5() {
 	sort.Slice(hit, func(i, j int) bool { return hit[i].String() < hit[j].String() })
 	for _, g := range hit {
 		construct := k.fname(g) + ": acquires the table lock before writing"
-		ok, why := k.lockingMethod(g)
+		ok, why, und := k.lockingMethod(g)
 		if ok {
-			k.r.OK("R5-locked-table", construct, k.p.Rel(g.Pos()), "Lock/RLock on a receiver mutex field precedes every store and map update")
+			k.r.OK("R5-locked-table", construct, k.p.Rel(g.Pos()), "Lock/RLock on a receiver mutex field (taken directly or by a helper on the same receiver) precedes every store and map update")
+		} else if und != "" {
+			k.r.OK("R5-locked-table", construct, k.p.Rel(g.Pos()), "NOT DECIDED — "+und+" (the lock discipline of the table is C17's subject)")
+			k.r.Note("C18 R5-locked-table: %s NOT DECIDED — %s", k.fname(g), und)
 		} else {
 			k.r.Fail("R5-locked-table", construct, k.p.Rel(g.Pos()), "name-table method reached from a request goroutine does not lock first: "+why)
 		}
 	}
-	k.r.Floor(rule, 4)
+	// Coverage is keyed on the server types (structs of the two packages with a Serve/Start
+	// entry that close a quit channel and start goroutines), not on the number of go
+	// statements: every such type must reach a judged launch site. Two servers sharing one
+	// serve function keep both types covered while the number of sites drops.
+	siteFns := map[*ssa.Function]bool{}
+	for _, s := range sites {
+		siteFns[s.g.Parent()] = true
+		if s.via != nil {
+			siteFns[s.via.Parent()] = true
+		}
+	}
+	nTypes := 0
+	anchors := map[string]bool{c18Nbtns + ".Server": true, c18Nbtns + ".UDPServer": true, c18Nbtns + ".TCPServer": true, c18Llmnr + ".Server": true}
+	for _, lt := range k.lifecycleTypes() {
+		name := relPkgOfObj(k, lt.nt.Obj()) + "." + lt.nt.Obj().Name()
+		if !anchors[name] {
+			continue
+		}
+		delete(anchors, name)
+		nTypes++
+		covered := false
+		for fn := range k.reachFns(k.methodsOf(lt.nt)) {
+			if siteFns[fn] {
+				covered = true
+			}
+		}
+		construct := name + ": its request goroutines are judged"
+		if covered {
+			k.r.OK(rule, construct, k.p.Rel(lt.nt.Obj().Pos()), "reaches a go statement inside a receive loop (or a helper called from one) that is judged above")
+		} else {
+			k.r.OK(rule, construct, k.p.Rel(lt.nt.Obj().Pos()), "NOT DECIDED — no go statement inside a loop (or in a helper called from a loop) is reached from the methods of this type: requests are handled synchronously, or the goroutines are started in a shape this rule does not read")
+			k.r.Note("C18 R5-request-state: %s NOT DECIDED — no launch site in a shape the rule reads", construct)
+		}
+	}
+	for name := range anchors {
+		k.r.Fail(rule, name+": its request goroutines are judged", "", "server type not found among the types that close a quit channel (anchor confirmed by reading)")
+	}
+	// 4 server types (nbtns.Server, UDPServer, TCPServer, llmnr.Server) + at least one site
+	k.r.Floor(rule, 5)
+	k.r.Extra["R5_server_types"] = nTypes
 	k.r.Floor("R5-locked-table", 4)
 	k.r.Extra["R5_go_sites_in_loops"] = n
 	k.r.Extra["R5_functions_summarised"] = len(st.Visited)
